@@ -223,6 +223,22 @@ def run(model, col, tier):
             order.append("visit")
     col.check(order == ["imports", "register", "visit"], "R16.5", f"{CT}::v_Module order", "imports, then register all functions, then type the bodies",
               f"order is {order}", CT, ctm)
+    # ---------------- R16.7 the shared default loader is stateless ---------------------
+    linit = lk.own_method("__init__")
+    for a, d in zip(linit.args.kwonlyargs, linit.args.kw_defaults):
+        if d is not None and isinstance(d, ast.Call):
+            ci = model.resolve_class_expr(IR, d.func)
+            if ci is not None:
+                state = sorted(ci.instance_attrs())
+                col.check(not state, "R16.7", f"{IR}::Linker.__init__ default {a.arg}={unparse(d)}",
+                          f"the default {ci.name} object is shared by every Linker and holds no state",
+                          f"the default argument `{a.arg}={unparse(d)}` is evaluated once and shared by every Linker, and {ci.name} keeps state in {state}: "
+                          "a module loaded for one link (e.g. before it was recompiled) is served to later links", IR, linit)
+    ctv_init = model.cls(CT, "ComputeTypeVisitor").own_method("__init__")
+    ld_cls = [model.resolve_class_expr(CT, n.value.func) for n in ast.walk(ctv_init) if isinstance(n, ast.Assign) and isinstance(n.value, ast.Call) and "Loader" in unparse(n.value.func)]
+    for ci in ld_cls:
+        if ci is not None:
+            col.check(not ci.instance_attrs(), "R16.7", f"{CT}::ComputeTypeVisitor loader {ci.name} is stateless", "every Load reads the module file", f"{ci.name} keeps state {sorted(ci.instance_attrs())}", IR, ci.node)
     # ---------------- R16.6 -------------------------------------------------------
     nslc = model.file("nslc.py")
     dumps = [c for c in ast.walk(nslc.tree) if isinstance(c, ast.Call) and dotted(c.func) == "pickle.dump"]
